@@ -363,3 +363,16 @@ Example C09_example_programs_render_like_the_store_model :
              (combine (run c world0 (hist15 k)) (runP c world0 (hist15 k))))
      [fixed; mkCfg true true false]) span_kinds = true.
 Proof. exact programs_render_like_the_store_model. Qed.
+
+(* at history level: in any world, i.e. after any history, the writer OBJECT that performs a write (used before, raised
+   before, new) is irrelevant for store, exit, tokens, footprint and copy count *)
+Theorem C09_program_step_writer_object_irrelevant : forall c w wid1 wid2 k o si,
+  fix15 c = true ->
+  let r1 := stepP c w (OWrite wid1 k o si) in
+  let r2 := stepP c w (OWrite wid2 k o si) in
+  w_st (fst r1) = w_st (fst r2) /\ w_sets (fst r1) = w_sets (fst r2) /\
+  mo_err (snd r1) = mo_err (snd r2) /\ mo_tokens (snd r1) = mo_tokens (snd r2) /\
+  mo_fp (snd r1) = mo_fp (snd r2) /\ mo_copies (snd r1) = mo_copies (snd r2) /\
+  mo_changed_below (snd r1) = mo_changed_below (snd r2).
+Proof. exact stepP_writer_object_irrelevant. Qed.
+Print Assumptions C09_program_step_writer_object_irrelevant.
